@@ -13,6 +13,7 @@ import signal
 import subprocess
 import sys
 import tempfile
+import threading
 import time
 
 VERIF = os.path.dirname(os.path.dirname(os.path.abspath(__file__)))
@@ -93,6 +94,7 @@ class Ctx:
         self.extra = {}
         self.rule = ""
         self.findings = Findings()
+        self._lock = threading.RLock()
         base = os.environ.get("VERIF_SCRATCH") or tempfile.gettempdir()
         self.scratch = tempfile.mkdtemp(prefix="nvverif_%s_" % pid, dir=base)
         atexit.register(self.cleanup)
@@ -114,7 +116,8 @@ class Ctx:
         return quick if self.quick else thorough
 
     def count(self, name, n=1):
-        self.counters[name] += n
+        with self._lock:
+            self.counters[name] += n
 
     def merge_counts(self, c):
         for k, v in c.items():
@@ -142,6 +145,10 @@ class Ctx:
     def refute(self, mech, what, witness):
         """Record a refuting observation.  `mech` is the mechanism key computed by the property's classifier from
         the structure of the witness (never from hashes or random values), or None when no known mechanism fits."""
+        with self._lock:
+            return self._refute(mech, what, witness)
+
+    def _refute(self, mech, what, witness):
         known = self.findings.known.get(self.pid, {})
         if mech is not None and mech in known:
             self.known_hits[mech] += 1
